@@ -208,6 +208,28 @@ def run(report, tier, seed):
                 f"{core.cseq(core.cnats(r) for r in rows)} {core.cseq(core.cseq(core.cz(v) for v in c) for c in cols)}) {exp}")
         cc.add(term, {"kind": "from_attributes", "rows": rows, "cols": cols, "names": names, "retain": [rc, rn],
                       "explicit": [e_rc, e_rn], "global": [g_rc, g_rn], "impl": exp[:300]})
+        # the same cleaning applied to an existing polynomial that still carries the redundancy (clean_attributes with
+        # explicit or omitted flags under the same global setting): must give what from_attributes gives on the triple
+        try:
+            raw = numpoly.polynomial_from_attributes(rows, arrs, tnames, retain_coefficients=True, retain_names=True)
+        except Exception:  # noqa: BLE001
+            raw = None
+        if raw is not None and len(rows) == len(cols):
+            kw = {}
+            if e_rc is not None or rng.random() < 0.5:
+                kw["retain_coefficients"] = e_rc
+            if e_rn is not None or rng.random() < 0.5:
+                kw["retain_names"] = e_rn
+            try:
+                with numpoly.global_options(retain_coefficients=g_rc, retain_names=g_rn):
+                    q = numpoly.clean_attributes(raw, **kw)
+                exp2 = lay_coq(core.poly_layout(q))
+            except Exception as exc:  # noqa: BLE001
+                exp2 = f"(LErr {core.err_enum(exc)})"
+            term2 = (f"chk_layout (zfrom_attributes {core.cbool(rc)} {core.cbool(rn)} {core.cnats(names)} {core.cnats(shape)} "
+                     f"{core.cseq(core.cnats(r) for r in rows)} {core.cseq(core.cseq(core.cz(v) for v in c) for c in cols)}) {exp2}")
+            cc.add(term2, {"kind": "clean_attributes", "rows": rows, "cols": cols, "names": names, "retain": [rc, rn],
+                           "explicit": kw, "global": [g_rc, g_rn], "impl": exp2[:300]})
     failed, errors = cc.run() if tr_ok else ([], [])
     report.coverage.update({
         "evaluations": n_ops + n_attr, "distinct_nontrivial": len(nontrivial),
